@@ -44,10 +44,17 @@ def make_target():
 
 
 def park_offsets(fn):
+    """offset of the CALL instruction of each `gates[i].acquire()`, in source order: while the target sits in (or is entering)
+    that C call its f_lasti is exactly this offset - a load-independent test for 'the target is at position i'"""
     offs = []
+    want = False
     for ins in dis.get_instructions(fn):
-        if ins.opname.startswith("CALL") and not offs or ins.opname.startswith("CALL"):
+        if ins.argval == "acquire":
+            want = True
+        elif want and ins.opname in ("CALL", "CALL_METHOD", "CALL_FUNCTION"):
             offs.append(ins.offset)
+            want = False
+    assert len(offs) == 5, offs
     return offs
 
 
@@ -61,17 +68,16 @@ def current_pos(thread, fn, calls):
 def run_trial(k, a, n):
     fn, gates = make_target()
     th = threading.Thread(target=fn); th.start()
+    offs = park_offsets(fn)
     def wait_parked_at(pos_count):
-        # the target is parked when its innermost frame is fn's and it has consumed exactly pos_count-1 gates
-        deadline = time.monotonic() + 10
-        last = None; stable = 0
+        # the target is at position p when its innermost frame is fn's and f_lasti is the CALL of the p-th acquire (gates p.. are
+        # still held by the harness, so it cannot get past it); no timing assumption
+        deadline = time.monotonic() + 60
         while time.monotonic() < deadline:
             top = sys._current_frames().get(th.ident)
-            if top is not None and top.f_code is fn.__code__:
-                if top.f_lasti == last: stable += 1
-                else: last, stable = top.f_lasti, 0
-                if stable >= 3: return top
-            time.sleep(0.0005)
+            if top is not None and top.f_code is fn.__code__ and top.f_lasti == offs[pos_count - 1]:
+                return top
+            time.sleep(0.0002)
         raise RuntimeError("harness: target did not park")
     released = 0
     def advance(to):
